@@ -8,10 +8,10 @@ import (
 var bufPool = NewBuffer(0)
 
 // GetBuffer takes a Buffer from the default buffer pool
-func GetBuffer() *bytes.Buffer { return bufPool.Get() }
+func GetBuffer() *bytes.Buffer { x := bufPool.Get(); verifAt("get", x); return x }
 
 // PutBuffer returns Buffer to the default buffer pool
-func PutBuffer(x *bytes.Buffer) { bufPool.Put(x) }
+func PutBuffer(x *bytes.Buffer) { verifAt("put", x); bufPool.Put(x) }
 
 type BufferPool interface {
 	Get() *bytes.Buffer
